@@ -46,8 +46,11 @@ func WithHistogramDataPointStatistics(values []float64) func(HistogramDataPoint)
 		if len(values) == 0 { // a persisted timer with no new data
 			return
 		}
-		hdp.raw.Min = &values[0]
-		hdp.raw.Max = &values[len(values)-1]
+		// Min and Max must not point into values: the slice belongs to the flushed map, which every backend
+		// reads, and it is only sorted for timers without histogram buckets
+		lowest, highest := values[0], values[0]
+		hdp.raw.Min = &lowest
+		hdp.raw.Max = &highest
 		hdp.raw.Count = uint64(len(values))
 
 		for _, v := range values {
